@@ -95,7 +95,11 @@ class GenericCallAdapter(Adapter):
             kw_arg_node = {kw.arg: kw.value for kw in node.keywords if kw.arg}.get
 
             def pos_arg_node(pos):
-                return node.args[pos]
+                # the call can have less arguments than the adapter describes
+                # (defaultdict(list) has no dict argument)
+                if pos < len(node.args):
+                    return node.args[pos]
+                return None
 
         else:
 
